@@ -59,7 +59,8 @@ def worker(k, q, results, lock, outdir):
     os.makedirs(wdir)
     sh(["git", "-C", "/repo", "worktree", "add", "--detach", wt, "HEAD"])
     shutil.copytree(ROOT, vf, ignore=shutil.ignore_patterns(".git", ".build", "replays", "__pycache__", "seeded", "benign"))
-    venv = dict(os.environ, VERIF_REPO=wt)
+    # a hanging mutant is confirmed twice (60 s, then 120 s alone) instead of the default 300 s / 600 s
+    venv = dict(os.environ, VERIF_REPO=wt, VERIF_CASE_LIMIT_S="60")
     while True:
         try:
             item = q.get_nowait()
